@@ -221,6 +221,13 @@ class Evaluator:
             if op in ('+', '-', '*'):
                 v = {'+': a[1] + b[1], '-': a[1] - b[1], '*': a[1] * b[1]}[op]
                 return (z3.Or(a[0], b[0]), v)
+            if op == '%':
+                # remainder with the sign of the dividend (sqlite, mysql, postgresql agree on integers); NULL when the divisor is 0
+                # (sqlite, mysql; postgresql raises - outside the claim)
+                ab = z3.If(b[1] >= 0, b[1], -b[1])
+                nz = z3.If(ab == 0, z3.IntVal(1), ab)
+                v = z3.If(a[1] >= 0, a[1] % nz, -((-a[1]) % nz))
+                return (z3.Or(a[0], b[0], b[1] == 0), v)
             raise Unsupported('binary %s' % op)
         if isinstance(node, A.Function):
             fn = node.op.lower()
